@@ -76,6 +76,24 @@ Theorem C05_retry_skips_when_deadline_sooner : forall delay until c d f,
 Proof. exact retry_skip_when_deadline_sooner. Qed.
 Print Assumptions C05_retry_skips_when_deadline_sooner.
 
+(** While a caller uses the connection synchronously (syncDo / syncDoMulti: the connection deadline is the one
+    derived from its context) it is the only user: no other synchronous caller, no background writer or reader,
+    and the background workers - whose first action is to clear the connection deadline - have not been started.
+    Whatever step any thread takes, as long as the caller is still in its synchronous section afterwards the
+    background workers still have not been started: only the caller's own step (its failure step, which ends
+    the section) can start them.  Hence nobody but the caller touches the deadline it installed. *)
+Theorem C05_sync_owner_alone : forall g sched s t,
+  prun g sched (p_init g) = Some s -> sync_user (p_calls s t) = true ->
+  p_bg s = false /\ bg_user s = false /\ (forall u, sync_user (p_calls s u) = true -> u = t).
+Proof. exact sync_owner_alone. Qed.
+Print Assumptions C05_sync_owner_alone.
+
+Theorem C05_sync_deadline_preserved : forall g sched s t l s',
+  prun g sched (p_init g) = Some s -> sync_user (p_calls s t) = true -> pstep g s l = Some s' ->
+  sync_user (p_calls s' t) = true -> p_bg s' = false.
+Proof. exact sync_deadline_preserved. Qed.
+Print Assumptions C05_sync_deadline_preserved.
+
 (** a call whose context is already done when it starts returns the context error, its commands are
     never put on the wire (neither by itself nor by the writer) and it never owns a queue slot *)
 Theorem C05_done_ctx_sends_nothing : forall g sched s t,
